@@ -88,6 +88,10 @@ StepClauses(e, p, st, k, a, v) ==
         /\ Drift(e.mg = SumTab(a.bag, Tab.e.mg) /\ e.eg = SumTab(a.bag, Tab.e.eg)
                  /\ e.ph = a.phase, "C15", "table-sum", [fen |-> e.fen])
         /\ Viol(~e.evp, "C16", "eval-panic", [fen |-> e.fen])
+        \* whatever the evaluation maintains incrementally (known to this specification or not): the live game evaluates
+        \* like the same position set up afresh
+        /\ Viol(e.evp \/ e.ev = e.evs, "C15", "evaluation-of-the-live-game-differs-from-the-position-set-up-afresh",
+                [fen |-> e.fen, live |-> e.ev, fresh |-> e.evs])
         \* static exchange evaluation is a function of the position: the live game and the position set up afresh agree
         /\ Viol(e.seel = e.seef, "C20", "exchange-verdict-depends-on-how-the-position-was-reached",
                 [fen |-> e.fen, live |-> e.seel, fresh |-> e.seef])
